@@ -1,5 +1,42 @@
+(* C14 (codec half) — property theorems.  Only statements, [exact lemma] and Print Assumptions. *)
 From Coq Require Import ZArith List.
-From FV Require Import C14.SbsModel C14.SbsProofs.
-Theorem sbs_placeholder : True.
-Proof. exact placeholder. Qed.
-Print Assumptions sbs_placeholder.
+From FV Require Import Lib.RustInt C14.SbsModel C14.SbsProofs C14.SbsSpec C14.SbsRoundtrip.
+Import ListNotations.
+Open Scope Z_scope.
+
+(* Decoding arbitrary bytes never panics (and the model's fuel is sufficient): for every byte string
+   of at most 2^27 bytes and every bias / maximum the outcome is Ok or Err(DecodingError). *)
+Theorem sbs_decode_total : forall data bias maxv,
+  Forall is_byte data -> Z.of_nat (length data) <= 2 ^ 27 ->
+  (exists rs rest, decode data bias maxv = Ok rs rest) \/ decode data bias maxv = Err.
+Proof. exact decode_total. Qed.
+
+(* Within the supported tree heights the decoder agrees with the specification's algorithm:
+   same error condition, same unread remainder, same members after bias and maximum. *)
+Theorem sbs_decode_matches_spec : forall data bias maxv,
+  Forall is_byte data -> Z.of_nat (length data) <= 2 ^ 27 -> 0 <= bias -> 0 <= maxv < U32 ->
+  match data with
+  | h :: _ => Z.shiftr (Z.land h 124) 2 <= max_height (bf_of_bits (Z.land h 3))
+  | [] => True
+  end ->
+  match spec_decode data with
+  | SErr => decode data bias maxv = Err
+  | SOk srs srest =>
+      exists rs, decode data bias maxv = Ok rs srest /\
+                 forall x, in_ranges x rs = in_ranges x (clip_ranges bias maxv srs)
+  end.
+Proof. exact decode_matches_spec. Qed.
+
+(* Round trip, proved for every subset of [0,12) (characteristic mask m), every branch factor and the
+   automatic choice; the general statement is in SbsRoundtrip.v and is tested, not proved. *)
+Theorem sbs_roundtrip_partial : forall m bf, 0 <= m < 4096 -> In bf [2; 4; 8; 32] ->
+  rt_ok bf (subset_of_mask m) = true.
+Proof. exact roundtrip_small. Qed.
+
+Theorem sbs_roundtrip_auto_partial : forall m, 0 <= m < 4096 -> rt_ok 0 (subset_of_mask m) = true.
+Proof. exact roundtrip_small_auto. Qed.
+
+Print Assumptions sbs_decode_total.
+Print Assumptions sbs_decode_matches_spec.
+Print Assumptions sbs_roundtrip_partial.
+Print Assumptions sbs_roundtrip_auto_partial.
